@@ -1,5 +1,6 @@
 """C17 — loading describes exactly what was written, without side effects."""
 import cmath
+import os
 import copy
 import math
 import random
@@ -125,6 +126,26 @@ def network_loader(ctx, rng, quick):
                             ctx.violation('C17:second-load-differs', 'loading the same description object twice gives different networks', rep)
                     except Exception as e:  # noqa: BLE001
                         ctx.violation('C17:second-load-fails', f'second load of the same description object raised {type(e).__name__}', rep)
+                    # the same description through a file; ONE path is rewritten for every description of the run
+                    try:
+                        import json as _json
+                        import tempfile
+                        path = os.path.join(tempfile.gettempdir(), f'c17_network_{os.getpid()}.json')
+                        with open(path, 'w') as f:
+                            _json.dump(before, f)
+                        net3 = loaders.load_network_from_json(path)
+                        ctx.count('loaded-from-file')
+                        if [(x.node1, x.node2, x.id) for x in net3.branches] != [(x.node1, x.node2, x.id) for x in net.branches] or \
+                                not all(elem_close(x.element, y.element) for x, y in zip(net3.branches, net.branches)):
+                            ctx.violation('C17:file-load-differs', f'load_network_from_json of the file holding this description gives {net3.branches} '
+                                          f'(the path had held another description before)', rep)
+                    except Exception as e:  # noqa: BLE001
+                        ctx.violation(f'C17:file-load-raises-{type(e).__name__}', str(e)[:120], rep)
+                    finally:
+                        try:
+                            os.remove(path)
+                        except OSError:
+                            pass
     # to_complex
     for _ in range(30 if quick else 600):
         ctx.evaluations += 1
